@@ -817,6 +817,19 @@ func lockPairing(c *kit.Ctx, pkgSuffix string) {
 				if d, ok := x.(*ssa.Defer); ok && kit.CalleeName(d) == unlock && sameMutex(d.Call.Args[0]) {
 					deferred = true
 				}
+				// a deferred function literal that unlocks on every way through it
+				if d, ok := x.(*ssa.Defer); ok {
+					if mc, ok := d.Call.Value.(*ssa.MakeClosure); ok {
+						lit := mc.Fn.(*ssa.Function)
+						e := kit.PathFromEntry(lit, kit.PathQuery{Stop: func(y ssa.Instruction) bool {
+							u, ok := y.(*ssa.Call)
+							return ok && kit.CalleeName(u) == unlock && len(u.Call.Args) > 0 && sameMutex(u.Call.Args[0])
+						}, IgnorePanics: true})
+						if e == nil {
+							deferred = true
+						}
+					}
+				}
 			})
 			if deferred {
 				c.OK(fn, "lock-released", call.Pos(), "released by a deferred "+unlock)
